@@ -130,6 +130,26 @@ func timerCmd(w *bufio.Writer, seed int64, n int) {
 				}
 				sleep(ms(150))
 				read()
+			case 1: // a zero-duration reset after a timer that has already expired (its expiry read or left unread), then reads
+				d := ms(5 + rng.Intn(20))
+				reset(d)
+				sleep(d + ms(30+rng.Intn(40)))
+				if rng.Intn(2) == 0 {
+					read()
+				}
+				reset(0)
+				if rng.Intn(2) == 0 {
+					read()
+				}
+				sleep(ms(20 + rng.Intn(30)))
+				read()
+				if rng.Intn(2) == 0 {
+					reset(0)
+					sleep(ms(20))
+					read()
+				}
+				sleep(ms(130))
+				read()
 			default:
 				for k := 0; k < 8+rng.Intn(8); k++ {
 					switch rng.Intn(5) {
